@@ -45,6 +45,33 @@ MUTS = {
 }
 # several edits at once: (name, [(file, old, new), ...])
 MULTI = {
+ "F1-converter-names-deduplicated-process-wide": [
+    ("src/spox/_adapt.py", "def adapt_node(\n", """def _qualified(prefix: str, name: str, taken: set = set()) -> str:
+    cand = f"{prefix}__{name}"
+    k = 0
+    while cand in taken:
+        cand = f"{prefix}__{name}_{k}"
+        k += 1
+    taken.add(cand)
+    return cand
+
+
+def adapt_node(
+"""),
+    ("src/spox/_adapt.py", """    for nd in target_nodes:
+        for names in (nd.input, nd.output):""", """    _ren = {name: _qualified(proto.name, name) for name in sorted(introduced)}
+    for nd in target_nodes:
+        for names in (nd.input, nd.output):"""),
+    ("src/spox/_adapt.py", 'f"{proto.name}__{name}" if name in introduced else name for name in names', '_ren.get(name, name) for name in names'),
+ ],
+ "F2-converter-names-numbered-by-global-counter": [
+    ("src/spox/_adapt.py", "def adapt_node(\n", "import itertools as _it\n_FRESH = _it.count()\n\n\ndef adapt_node(\n"),
+    ("src/spox/_adapt.py", """    for nd in target_nodes:
+        for names in (nd.input, nd.output):""", """    _ren = {name: f"{proto.name}__{name}_{next(_FRESH)}" for name in sorted(introduced)}
+    for nd in target_nodes:
+        for names in (nd.input, nd.output):"""),
+    ("src/spox/_adapt.py", 'f"{proto.name}__{name}" if name in introduced else name for name in names', '_ren.get(name, name) for name in names'),
+ ],
  "K1-adapted-protos-remembered-across-builds": [
     ("src/spox/_graph.py", "@dataclass(frozen=True, eq=False)\nclass Graph:", "import weakref\n_ADAPTED: 'weakref.WeakKeyDictionary' = weakref.WeakKeyDictionary()\n\n\n@dataclass(frozen=True, eq=False)\nclass Graph:"),
     ("src/spox/_graph.py", """            best_effort = adapt_best_effort(
